@@ -31,15 +31,15 @@ LEVEL_TEXT = ('Theorems for every grid, layer configuration, cache state and req
               'and TileManager.load_tile_coords (single tiles, meta tiles with meta_buffer, minimize_meta_requests); tied to the code by running the real '
               'application on generated configurations and comparing answers and cache/upstream operations.')
 LEVEL_NOTE = ('Trusted: Coq kernel; hand-written model Limits.v (+Grid.v); the correspondence harness. Not modelled: '
-              'bulk_meta_tiles, rescale_tiles, coverages / authorization limits, reprojection (requests are in the '
-              'grid SRS), seeding. IEEE rounding not modelled (exact lattice: bit-exact; realistic grids: 1e-6 tolerance on bboxes). '
+              'bulk_meta_tiles, rescale_tiles, coverages / authorization limits, reprojection (the model and the correspondence take requests in the '
+              'grid SRS; GetMap in EPSG:4326 on mercator caches around max_tile_limit is checked by the oracle only, fixed probes), seeding. IEEE rounding not modelled (exact lattice: bit-exact; realistic grids: 1e-6 tolerance on bboxes). '
               'The EXCEPTIONS parameter is sent only with requests over the pixel limit (their refusal must be the XML document whatever it asks for). WMTS GetFeatureInfo does not compare FORMAT with the layer format (pinned by the test-suite of mapproxy: documented, _refuted theorem); dimension values are validated as for GetTile.')
 DESIGN_REF = 'DESIGN.md section 5, C16'
 RULE = ('case = (layer configuration incl. grid, cache state, service, request); non-trivial = address on / next to a matrix '
         'boundary or of huge magnitude, non-numeric component, wrong format / dimension value, or a map request within +-1 of '
         'a pixel / tile limit or tile edge; distinct by (grid parameters, layer options, request)')
 TRUSTED = ['model Limits.v hand-written from service/tile.py, service/wmts.py, service/kml.py, service/wms.py, layer.py, cache/tile.py, grid.py',
-           'tie = differential run of the real WSGI app vs the model (vm_compute); request SRS = grid SRS only']
+           'tie = differential run of the real WSGI app vs the model (vm_compute); request SRS = grid SRS only (other SRS: oracle-only fixed probes)']
 ASSUMPTIONS = ['upstream answers every GetMap with a cacheable image (no source errors)',
                'no coverage / authorization callback configured',
                'with meta_buffer > 0 the grid bbox is at least one pixel of the coarsest level wide and high']
